@@ -32,9 +32,10 @@ import (
 type kid struct {
 	id    int
 	flags uint16
+	owner int
 }
 
-func (k kref) kid() kid { return kid{k.id, k.flags} }
+func (k kref) kid() kid { return kid{k.id, k.flags, k.owner} }
 
 type oracle struct {
 	now int64
@@ -77,8 +78,13 @@ func parseObsState(s string) (map[uint16]entry, bool) {
 	for _, e := range strings.Split(s, ",") {
 		p := strings.Split(e, "/")
 		ref := p[0]
-		if i := strings.IndexByte(ref, '@'); i >= 0 {
+		if i := strings.IndexByte(ref, '#'); i >= 0 {
 			ref = ref[:i]
+		}
+		owner := 0
+		if body, o, ok := strings.Cut(ref, "@"); ok {
+			ref = body
+			fmt.Sscan(o, &owner)
 		}
 		q := strings.Split(ref, ".")
 		if len(q) != 3 {
@@ -90,7 +96,7 @@ func parseObsState(s string) (map[uint16]entry, bool) {
 		fmt.Sscan(q[2], &tg)
 		var age int64
 		fmt.Sscan(p[2], &age)
-		out[uint16(tg)] = entry{key: kref{id: id, flags: uint16(fl), tag: uint16(tg)}, st: p[1], age: age}
+		out[uint16(tg)] = entry{key: kref{id: id, flags: uint16(fl), tag: uint16(tg), owner: owner}, st: p[1], age: age}
 	}
 	return out, true
 }
@@ -160,7 +166,17 @@ func (o *oracle) before(s *sim, sp *runSpec) *preState {
 
 func hasKey(l []kref, id int, flags uint16) bool {
 	for _, k := range l {
-		if k.id == id && k.flags == flags {
+		if k.id == id && k.flags == flags && k.owner == 0 {
+			return true
+		}
+	}
+	return false
+}
+
+// hasRef: the very record (material, flags, owner name).
+func hasRef(l []kref, k kref) bool {
+	for _, x := range l {
+		if x.id == k.id && x.flags == k.flags && x.owner == k.owner {
 			return true
 		}
 	}
@@ -284,22 +300,43 @@ func (o *oracle) after(s *sim, sp *runSpec, pre *preState, outcome string) (stri
 	_ = stOK
 	_ = tbKind
 
-	// ground-truth classification of the served RRset
-	full, revOnly := false, false
-	if !sp.fetchNone && len(sp.fetch) > 0 {
-		for _, sg := range sp.signers {
+	// ground-truth classification of the served answer section. EVERY RRset in it — the root's
+	// DNSKEY RRset and whatever rides along (a DNSKEY RRset under another owner name, any other
+	// RRset) — must be validly signed: fully authenticated = each by a trusted non-revoked
+	// anchor; revocation-only = not that, but each by the REVOKE form (present in the root
+	// DNSKEY RRset) of a trusted anchor.
+	byAnchor := func(signers []kref) bool {
+		for _, sg := range signers {
 			for _, t := range trusted {
-				if t.id == sg.id && t.tag == sg.tag && t.sep() && !t.revoked() {
-					full = true
+				if t.id == sg.id && t.tag == sg.tag && t.sep() && !t.revoked() && t.owner == 0 && sg.owner == 0 {
+					return true
 				}
 			}
 		}
-		if !full {
-			for _, sg := range sp.signers {
-				if sg.revoked() && hasKey(sp.fetch, sg.id, sg.flags) && hasKey(trusted, sg.id, sg.flags^0x80) {
-					revOnly = true
-				}
+		return false
+	}
+	byRevoked := func(signers []kref) bool {
+		for _, sg := range signers {
+			if sg.revoked() && sg.owner == 0 && hasKey(sp.fetch, sg.id, sg.flags) && hasKey(trusted, sg.id, sg.flags^0x80) {
+				return true
 			}
+		}
+		return false
+	}
+	// every DNSKEY of the answer section (AutoTA consumes them all, whatever the owner name)
+	allFetched := append([]kref(nil), sp.fetch...)
+	for _, e := range sp.extras {
+		allFetched = append(allFetched, e.keys...)
+	}
+	full, revOnly := false, false
+	if !sp.fetchNone && len(allFetched) > 0 {
+		full, revOnly = len(sp.fetch) == 0 || byAnchor(sp.signers), len(sp.fetch) > 0 && byRevoked(sp.signers)
+		for _, e := range sp.extras {
+			full = full && byAnchor(e.signers)
+			revOnly = revOnly && byRevoked(e.signers)
+		}
+		if full {
+			revOnly = false
 		}
 	}
 	tags := "nt"
@@ -450,13 +487,13 @@ func (o *oracle) after(s *sim, sp *runSpec, pre *preState, outcome string) (stri
 		}
 		if completed {
 			for _, k := range liveAfter {
-				if !hasKey(trusted, k.id, k.flags) {
+				if !hasRef(trusted, k) {
 					flag(fail("autota/revocation-only/new-trust", "%s", k))
 				}
 			}
 			if !(failClosedMandated && len(liveAfter) == 0) {
 				for _, k := range trusted {
-					if !hasKey(liveAfter, k.id, k.flags) && !legit(k) {
+					if !hasRef(liveAfter, k) && !legit(k) {
 						flag(fail("autota/revocation-only/dropped-unrevoked-key", "%s", k))
 					}
 				}
@@ -514,7 +551,7 @@ func (o *oracle) after(s *sim, sp *runSpec, pre *preState, outcome string) (stri
 
 	// ---- clause: new keys need the 30-day hold-down in every accepted refresh
 	if accepted && full {
-		for _, k := range sp.fetch {
+		for _, k := range allFetched {
 			if t0, ok := o.streak[k.kid()]; ok && o.now-t0 > d30 {
 				o.earned[k.kid()] = true
 			}
@@ -533,8 +570,8 @@ func (o *oracle) after(s *sim, sp *runSpec, pre *preState, outcome string) (stri
 				if o.broken[k.kid()] == "tag-collision" {
 					why = "absent-key-kept-pending-by-colliding-tag"
 				}
-				if pre.fetched && !hasKey(sp.fetch, k.id, k.flags) {
-					for _, f := range sp.fetch {
+				if pre.fetched && !hasRef(allFetched, k) {
+					for _, f := range allFetched {
 						if f.tag == k.tag && f.sep() {
 							why = "absent-key-kept-pending-by-colliding-tag"
 						}
@@ -551,14 +588,14 @@ func (o *oracle) after(s *sim, sp *runSpec, pre *preState, outcome string) (stri
 	}
 	if accepted && full && stateLanded {
 		for _, k := range trusted {
-			if hasKey(sp.fetch, k.id, k.flags) {
+			if hasRef(allFetched, k) {
 				delete(o.missing, k.kid())
 			} else if _, ok := o.missing[k.kid()]; !ok {
 				o.missing[k.kid()] = o.now
 			}
 		}
 		inSet := map[kid]bool{}
-		for _, k := range sp.fetch {
+		for _, k := range allFetched {
 			inSet[k.kid()] = true
 			if _, ok := o.streak[k.kid()]; !ok {
 				o.streak[k.kid()] = o.now
@@ -570,7 +607,7 @@ func (o *oracle) after(s *sim, sp *runSpec, pre *preState, outcome string) (stri
 				delete(o.streak, k)
 				o.broken[k] = "absent"
 				t := tagOf(k.id, k.flags)
-				for _, f := range sp.fetch {
+				for _, f := range allFetched {
 					if f.tag == t && f.sep() {
 						o.broken[k] = "tag-collision"
 					}
@@ -582,7 +619,7 @@ func (o *oracle) after(s *sim, sp *runSpec, pre *preState, outcome string) (stri
 	// ---- clause: a key that merely disappears stays trusted for 90 days
 	if accepted && full && completed && !(failClosedMandated && len(liveAfter) == 0) {
 		for _, k := range pre.liveAtFetch { // keys validation was trusting when the refresh began
-			if hasKey(sp.fetch, k.id, k.flags) || hasInt(revokedNow, k.id) || o.durable[k.id] {
+			if hasRef(allFetched, k) || hasInt(revokedNow, k.id) || o.durable[k.id] {
 				continue
 			}
 			if tbBefore[k.id] || markerFor(stBefore, k.id) {
@@ -594,7 +631,7 @@ func (o *oracle) after(s *sim, sp *runSpec, pre *preState, outcome string) (stri
 			if !seen {
 				since = o.now
 			}
-			if o.now-since <= d90 && !hasKey(liveAfter, k.id, k.flags) {
+			if o.now-since <= d90 && !hasRef(liveAfter, k) {
 				flag(fail("autota/missing/dropped-before-90d", "%s missing for %d s live=%s", k, o.now-since, joinRefs(liveAfter)))
 			}
 		}
@@ -602,8 +639,8 @@ func (o *oracle) after(s *sim, sp *runSpec, pre *preState, outcome string) (stri
 	// a trusted key that is present in a fully authenticated refresh stays trusted
 	if accepted && full && completed && !(failClosedMandated && len(liveAfter) == 0) {
 		for _, k := range pre.liveAtFetch { // keys validation was trusting when the refresh began
-			if hasKey(sp.fetch, k.id, k.flags) && !hasInt(revokedNow, k.id) && !o.durable[k.id] && !tbBefore[k.id] && !markerFor(stBefore, k.id) &&
-				!hasKey(liveAfter, k.id, k.flags) {
+			if hasRef(allFetched, k) && !hasInt(revokedNow, k.id) && !o.durable[k.id] && !tbBefore[k.id] && !markerFor(stBefore, k.id) &&
+				!hasRef(liveAfter, k) {
 				flag(fail("autota/present/trusted-key-dropped", "%s live=%s", k, joinRefs(liveAfter)))
 			}
 		}
@@ -634,4 +671,49 @@ func hasInt(l []int, x int) bool {
 		}
 	}
 	return false
+}
+
+// probe judges a client-style validated lookup made with the current live set: with no trust
+// anchor validation fails closed (no answer at all, never an unvalidated one); with anchors an
+// answer is returned only as authenticated data, and only if a live anchor really signed every
+// RRset served.
+func (o *oracle) probe(s *sim, sp *runSpec, answered, ad bool) string {
+	live := s.liveRefs()
+	signedByLive := func(signers []kref) bool {
+		for _, sg := range signers {
+			for _, t := range live {
+				if t.id == sg.id && t.tag == sg.tag && t.owner == 0 && sg.owner == 0 {
+					return true
+				}
+			}
+		}
+		return false
+	}
+	valid := len(sp.fetch) > 0 && signedByLive(sp.signers)
+	for _, e := range sp.extras {
+		valid = valid && signedByLive(e.signers)
+	}
+	switch {
+	case len(live) == 0 && answered:
+		return fail("autota/fail-closed/answer-without-trust-anchor", "ad=%v", ad)
+	case answered && !valid:
+		return fail("autota/validation/unauthenticated-answer-served", "ad=%v live=%s signers=%s", ad, joinRefs(live), joinRefs(sp.signers))
+	case answered && !ad:
+		return fail("autota/validation/answer-without-ad", "live=%s", joinRefs(live))
+	case !answered && valid && len(live) > 0:
+		return fail("autota/validation/valid-answer-refused", "live=%s signers=%s", joinRefs(live), joinRefs(sp.signers))
+	}
+	return "ok"
+}
+
+// boot judges the trust set of a process that has started but not refreshed yet.
+func (o *oracle) boot(s *sim) string {
+	o.closed = map[int]bool{}
+	live := s.liveRefs()
+	for m := range o.durable {
+		if hasMat(live, m) && recordOf(s.obsState(), s.obsTomb(), m) {
+			return fail("autota/process-start/revoked-key-trusted-before-first-refresh", "material %d live=%s", m, joinRefs(live))
+		}
+	}
+	return "ok"
 }
